@@ -111,8 +111,10 @@ func (g *gen) fieldArith(pk string, m *big.Int) {
 		if z.Cmp(R) < 0 {
 			g.add("%sraw.reduce@%s %s", pk, two[r.intn(2)], limbsOf(z, limbs))
 		}
-		if i%8 == 0 {
+		if i%2 == 0 {
 			g.add("%sraw.inverse@%s %s", pk, []string{"api", "zx"}[r.intn(2)], xl)
+		} else {
+			g.add("%sraw.inverse@%s %s", pk, []string{"api", "zx"}[r.intn(2)], yl)
 		}
 	}
 	// exponentiation
